@@ -106,18 +106,18 @@ func sanitizeInterfaceInlineFragment(ctx *PlanningContext, selectionSet ast.Sele
 		return ast.SelectionSet{selection}
 	}
 
+	result := selectionSet
 	for _, pt := range possibleTypes {
+		// every possible type gets the selections of the fragment, not the fragments of its siblings
 		inlineFragment := &ast.InlineFragment{
 			TypeCondition:    pt.Name,
 			Directives:       selection.Directives,
-			SelectionSet:     selection.SelectionSet,
+			SelectionSet:     selectionSet,
 			ObjectDefinition: pt,
 		}
-		css := &selectionSet
-		inlineFragment.SelectionSet = *css
-		selectionSet = addSelectionSetToSanitizedResult(selectionSet, inlineFragment)
+		result = addSelectionSetToSanitizedResult(result, inlineFragment)
 	}
-	return selectionSet
+	return result
 }
 
 func setMissingScrubFieldsForFieldSelectionSet(ctx *PlanningContext, insertionPoint []string, field *ast.Field, scrubFields ScrubFields, addedFields []string) ScrubFields {
